@@ -99,6 +99,18 @@ func (v *Verifier) discharge(o *Obligation, dir string, timeoutMs int, all bool)
 	}
 	var outs []string
 	results := map[string]string{}
+	if o.Result == "unsat" && o.Solver == "z3-new" && !o.IsCover {
+		// already decided by the incremental stage: the other solvers cross-check (thorough tier)
+		results["z3-new"] = "unsat"
+		outs = append(outs, o.Output)
+		var rest []string
+		for _, sn := range order {
+			if sn != "z3-new" {
+				rest = append(rest, sn)
+			}
+		}
+		order = rest
+	}
 	for i, sn := range order {
 		tmo := timeoutMs
 		if i > 0 && !all && tmo > 10000 {
@@ -164,7 +176,137 @@ func sanitize(s string) string {
 	return r
 }
 
+// chunkStage is an accelerator: consecutive obligations of one function share long prefixes of their
+// path commands (they come from a depth-first exploration), so a chunk of them is sent to one
+// incremental z3-new process that asserts the shared prefix once (push/pop per obligation). Only
+// "unsat" answers are taken from this stage; everything else is decided by the one-process-per-
+// obligation portfolio afterwards.
+func (v *Verifier) chunkStage(obls []*Obligation, dir string, perCheckMs int, workers int) {
+	const chunkSize = 48
+	type chunk struct {
+		id   int
+		obls []*Obligation
+	}
+	var chunks []chunk
+	var cur []*Obligation
+	flush := func() {
+		if len(cur) > 1 {
+			chunks = append(chunks, chunk{len(chunks), cur})
+		}
+		cur = nil
+	}
+	for _, o := range obls {
+		if o.IsCover || o.Result != "" {
+			continue
+		}
+		if len(cur) > 0 && (cur[0].Fn != o.Fn || cur[0].Theory != o.Theory || len(cur) >= chunkSize) {
+			flush()
+		}
+		cur = append(cur, o)
+	}
+	flush()
+	var wg sync.WaitGroup
+	ch := make(chan chunk)
+	for i := 0; i < workers; i++ {
+		wg.Add(1)
+		go func() {
+			defer wg.Done()
+			for c := range ch {
+				v.runChunk(c.id, c.obls, dir, perCheckMs)
+			}
+		}()
+	}
+	for _, c := range chunks {
+		ch <- c
+	}
+	close(ch)
+	wg.Wait()
+}
+
+func (v *Verifier) runChunk(id int, obls []*Obligation, dir string, perCheckMs int) {
+	var sb strings.Builder
+	sb.WriteString("(set-logic ALL)\n")
+	sb.WriteString(v.prelude(obls[0].Theory))
+	var asserted []string // commands currently asserted
+	var frames []int      // len(asserted) at each push
+	for _, o := range obls {
+		l := 0
+		for l < len(asserted) && l < len(o.Cmds) && asserted[l] == o.Cmds[l] {
+			l++
+		}
+		for len(asserted) > l && len(frames) > 0 {
+			sb.WriteString("(pop 1)\n")
+			asserted = asserted[:frames[len(frames)-1]]
+			frames = frames[:len(frames)-1]
+		}
+		if len(asserted) > l {
+			// cannot happen: everything asserted lives in some frame
+			return
+		}
+		sb.WriteString("(push 1)\n")
+		frames = append(frames, len(asserted))
+		for _, c := range o.Cmds[len(asserted):] {
+			sb.WriteString(c)
+			sb.WriteByte('\n')
+		}
+		asserted = append(asserted[:len(asserted):len(asserted)], o.Cmds[len(asserted):]...)
+		sb.WriteString("(push 1)\n(assert (not " + o.Goal.S + "))\n(check-sat)\n(pop 1)\n")
+	}
+	file := filepath.Join(dir, fmt.Sprintf("chunk_%s_%d.smt2", sanitize(obls[0].Fn), id))
+	os.WriteFile(file, []byte(sb.String()), 0644)
+	defer os.Remove(file)
+	t0 := time.Now()
+	cctx, cancel := context.WithTimeout(context.Background(), time.Duration(len(obls)*perCheckMs+20000)*time.Millisecond)
+	defer cancel()
+	cmd := exec.CommandContext(cctx, "z3-new", fmt.Sprintf("-t:%d", perCheckMs), file)
+	var out bytes.Buffer
+	cmd.Stdout = &out
+	cmd.Stderr = &out
+	cmd.Run()
+	ms := time.Since(t0).Milliseconds()
+	var answers []string
+	for _, l := range strings.Split(out.String(), "\n") {
+		l = strings.TrimSpace(l)
+		switch l {
+		case "sat", "unsat", "unknown", "timeout":
+			answers = append(answers, l)
+		default:
+			if strings.HasPrefix(l, "(error") {
+				// an error desynchronises answers and obligations: trust nothing of this chunk
+				return
+			}
+		}
+	}
+	if len(answers) > len(obls) {
+		return
+	}
+	n := 0
+	for i, a := range answers {
+		if a == "unsat" {
+			n++
+			_ = i
+		}
+	}
+	for i, a := range answers {
+		if a == "unsat" {
+			o := obls[i]
+			o.Result, o.Solver = "unsat", "z3-new"
+			o.Ms = ms / int64(len(answers))
+			o.Output = fmt.Sprintf("z3-new (incremental, chunk of %d): unsat", len(obls))
+		}
+	}
+}
+
+var chunkEnabled = true
+
 func (v *Verifier) dischargeAll(obls []*Obligation, dir string, timeoutMs int, all bool, workers int) {
+	if chunkEnabled && len(obls) >= 32 && os.Getenv("SODVC_NOCHUNK") == "" {
+		per := timeoutMs / 3
+		if per > 8000 {
+			per = 8000
+		}
+		v.chunkStage(obls, dir, per, workers)
+	}
 	var wg sync.WaitGroup
 	ch := make(chan *Obligation)
 	for i := 0; i < workers; i++ {
@@ -177,6 +319,9 @@ func (v *Verifier) dischargeAll(obls []*Obligation, dir string, timeoutMs int, a
 		}()
 	}
 	for _, o := range obls {
+		if o.Result == "unsat" && !o.IsCover && !all {
+			continue // decided by the chunk stage
+		}
 		ch <- o
 	}
 	close(ch)
